@@ -1015,13 +1015,13 @@ func mutated(c *vf.Ctx, i int, r *rand.Rand) {
 
 func run(c *vf.Ctx) {
 	workers := 14
-	nA := c.N(240, 6000)
+	nA := c.N(600, 6000)
 	c.Parallel(nA, workers, 1000, func(i int, r *rand.Rand) { singleKey(c, i, r) })
 	c.Logf("single-key part done")
 
 	type task struct{ n, k, rep int }
 	var tasks []task
-	reps := c.N(2, 12)
+	reps := c.N(4, 12)
 	for rep := 0; rep < reps; rep++ {
 		for n := 1; n <= 5; n++ {
 			for k := 1; k <= n; k++ {
@@ -1032,11 +1032,11 @@ func run(c *vf.Ctx) {
 	c.Parallel(len(tasks), workers, 200000, func(i int, r *rand.Rand) { shapes(c, r, tasks[i].n, tasks[i].k, tasks[i].rep) })
 	c.Logf("multisig shapes done")
 
-	nC := c.N(3000, 100000)
+	nC := c.N(10000, 100000)
 	c.Parallel(nC, workers, 300000, func(i int, r *rand.Rand) { builderAPI(c, i, r) })
-	nD := c.N(1500, 60000)
+	nD := c.N(4000, 60000)
 	c.Parallel(nD, workers, 1000000, func(i int, r *rand.Rand) { arbitrary(c, i, r) })
-	nE := c.N(60, 2500)
+	nE := c.N(150, 2500)
 	c.Parallel(nE, workers, 2000000, func(i int, r *rand.Rand) { mutated(c, i, r) })
 
 	c.Set("key_types", []string{"ed25519", "secp256k1", "multisig (members ed25519/secp256k1, nested multisig in the builder part)"})
